@@ -2375,6 +2375,10 @@ class FST:
             raise ValueError('cannot delete root node')
         if options.get('to'):
             raise ValueError("cannot replace root node with 'to' option")
+        if code is self:  # same checks as the normal put path
+            raise ValueError('circular put detected')
+        if isinstance(code, FST) and not code.a:
+            raise ValueError('this FST has already been consumed or deleted')
 
         with self._modifying():
             code = code_as_all(code, options, self._parse_params)
